@@ -1,7 +1,7 @@
 (* C06 — Generic transform controllers converge to the mapped image of their inputs. Statements only.
    Machine: GenCtl.q_step.  "Once the system goes quiet": the last change is followed by a reconcile of the item
    that starts after it (C05) and is the only one running on the item (C09); nothing else writes any more. *)
-From Verif Require Import Store Helpers DepDB Access AccessProofs GenCtl GenCtlProofs GenCtlConv.
+From Verif Require Import Store Helpers DepDB Access AccessProofs GenCtl GenCtlProofs GenCtlConv Transform TransformProofs TransformConv.
 Open Scope N_scope.
 
 (* from ANY store state reachable under C07's invariant (whatever the earlier history of creations, updates,
@@ -40,3 +40,25 @@ Theorem C06_fault_writes_nothing : forall now c o s,
   denied_or_err (AccessProofs.a_res now c o s) -> AccessProofs.a_st now c o s = s.
 Proof. exact AccessProofs.rejected_untouched. Qed.
 Print Assumptions C06_fault_writes_nothing.
+
+(* transform.Controller (rruntime flavour): from any state satisfying C07's invariant one undisturbed fault-free cycle
+   ends converged - successfully, or with the phase-conflict error while a foreign finalizer holds a torn-down output -
+   unless a torn-down output of a previous generation has to be removed first *)
+Theorem C06_transform_cycle_converges : forall ns tin tout cname tf, tin <> tout -> forall now x st k,
+  (owned_out ns tout cname x st -> in_fin ns tin cname x st) ->
+  exclusive_out ns tout cname x st -> fins_wf ns tin x st -> ~ stale_generation ns tin tout x st ->
+  let s' := t_cycle ns tin tout cname tf now x st k in
+  converged ns tin tout cname tf x (ts_store s') /\
+  (ts_pc s' = TDone true \/ (ts_pc s' = TDone false /\ held ns tout x (ts_store s'))).
+Proof. exact t_cycle_converges. Qed.
+Print Assumptions C06_transform_cycle_converges.
+
+(* ... in which case the first cycle removes it (and reports the conflict), leaving a state without a stale
+   generation, so the cycle started by the controller's restart converges by the theorem above *)
+Theorem C06_transform_stale_generation_removed : forall ns tin tout cname tf, tin <> tout -> forall now x st k,
+  exclusive_out ns tout cname x st -> fins_wf ns tin x st -> stale_generation ns tin tout x st ->
+  let st' := ts_store (t_cycle ns tin tout cname tf now x st k) in
+  ts_pc (t_cycle ns tin tout cname tf now x st k) = TDone false /\ st_get (kout ns tout x) st' = None /\
+  (exists inp', st_get (kin ns tin x) st' = Some inp' /\ r_phase inp' = false) /\ ~ stale_generation ns tin tout x st'.
+Proof. exact t_stale_generation_removed. Qed.
+Print Assumptions C06_transform_stale_generation_removed.
